@@ -449,7 +449,7 @@ def apply_contract(self, st, contract: Contract, recv, args, kwargs):
         if case.raises is None:
             out.append((OK, s, result))
         else:
-            out.append((RAISE, s, ExcVal(case.raises, exact=case.exact)))
+            out.append((RAISE, s, ExcVal(case.raises, exact=case.exact, fields={k: f(cpost) for k, f in case.exc_fields.items()})))
     if not out:
         self.infeasible_paths += 1
     return out
@@ -665,11 +665,13 @@ def builtin_call(self, st, name, args, kwargs, node=None):
         return [(OK, st, self.now(st))]
     if name == "isinstance":
         return self.do_isinstance(st, a[0], a[1])
-    if name in ("min", "max") and len(a) == 2 and all(isinstance(x, Val) and x.ty in (INT, REAL) for x in a):
-        real = REAL in (a[0].ty, a[1].ty)
-        x, y = (coerce(a[0], REAL).term, coerce(a[1], REAL).term) if real else (a[0].term, a[1].term)
-        c = x <= y if name == "min" else x >= y
-        return [(OK, st, Val(z3.If(c, x, y), REAL if real else INT))]
+    if name in ("min", "max") and len(a) >= 2 and all(isinstance(x, Val) and x.ty in (INT, REAL) for x in a):
+        real = REAL in [x.ty for x in a]
+        terms = [coerce(x, REAL).term if real else x.term for x in a]
+        acc = terms[0]
+        for y in terms[1:]:
+            acc = z3.If((acc <= y) if name == "min" else (acc >= y), acc, y)
+        return [(OK, st, Val(acc, REAL if real else INT))]
     if name == "abs" and isinstance(a[0], Val) and a[0].ty in (INT, REAL):
         return [(OK, st, Val(z3.If(a[0].term >= 0, a[0].term, -a[0].term), a[0].ty))]
     if name == "enumerate":
@@ -945,6 +947,11 @@ def value_method(self, st, recv, name, args, kwargs, lv):
         if name == "items":
             t = TupleVal([])
             t.items_of = recv
+            return [(OK, st, t)]
+        if name == "values":
+            t = TupleVal([])
+            t.items_of = recv
+            t.values_only = True
             return [(OK, st, t)]
         if name == "copy":
             return [(OK, st, Val(recv.term, ty.plain()))]
